@@ -167,13 +167,27 @@ CLAIMS["C20"] = {
             "constrained >= 0 plus rewrite rule",
     "technique": TECH,
 }
+CLAIMS["C16"] = {
+    "level": "other",
+    "text": "Partial (algebra of velocity regeneration; the Gaussian shape is numpy's, ASE and GROMACS' own gen_vel are outside). "
+            "modify_velocities of CP2K, LAMMPS, TurtleMD and GROMACS(infretis_genvel) plus draw_maxwellian_velocities, kinetic_energy, "
+            "reset_momentum and prepare_shooting_point run on symbolic temperature, masses, velocities, positions, box and standard-"
+            "normal draws (1..2 atoms; 3 thorough): one normal draw from the engine stream with loc 0 and sigma_i^2*m_i == kB*T as a "
+            "polynomial identity (sqrt kept exact), written velocities == draws/unit-factor, zero total momentum exactly when requested "
+            "and untouched otherwise, positions/box/atom identities preserved, kin_new == sum(m v^2)/2 of what was written, dek == "
+            "kin_new-kin_old (inf without old energy), the source frame unchanged, constants within 1e-5 of an independent CODATA table.",
+    "design_ref": "DESIGN.md section 3 C16 (H16)",
+    "note": "bare engine instances whose kb/_beta come from executing the constructor's own source lines; file layer pass-through; "
+            "normal(loc, scale, size) == loc + scale * standard normals (numpy contract); draws non-zero",
+    "technique": TECH,
+}
 PENDING = "check not built yet in this revision (see DESIGN.md for the plan); no claim is made"
 NOT_APPLICABLE = {
     "C01": "statistical convergence of a whole stochastic sampler: no bounded symbolic encoding; its algebraic obligations are decided under C02/C04/C09/C10/C11",
     "C08": "quantifies over crash positions in a trace of OS file-system effects and the outcome of TOML/path parsers on truncated trees: not symbolically executable with the installed tools (fault enumeration is a different technique family)",
     "C19": "every clause is a round trip through C-level text/binary codecs (str.format/float, struct, re, genfromtxt): not executable on symbolic data here",
 }
-for _p in ["C12", "C13", "C16"]:
+for _p in ["C12", "C13"]:
     if _p not in CLAIMS:
         NOT_APPLICABLE[_p] = PENDING
 NOTES = ("All checks: exit 0 held within the stated bounds; exit 1 + VIOLATION line only for a counterexample that was replayed "
